@@ -82,6 +82,20 @@ def refsum():
     return tot
 
 
+def seq_of(items, kind):
+    """The same numbers as different kinds of sequence: the converters go through PySequence_Fast."""
+    import collections
+    k = kind % 4
+    if k == 1:
+        return tuple(items)
+    if k == 2:
+        return collections.deque(items)
+    if k == 3 and items and all(items[i + 1] - items[i] == items[1] - items[0] for i in range(len(items) - 1)) \
+            and len(items) > 1:
+        return range(items[0], items[-1] + 1, items[1] - items[0])
+    return list(items)
+
+
 def bad_value(kind):
     return {0: None, 1: "text", 2: 3.25, 3: Unhashable(), 4: [1], 5: b"bytes"}[kind % 6]
 
@@ -173,7 +187,7 @@ def do_op(k, name, a, b, text):
     elif name == "char_inout":
         res(k, simlib.charInout(text))
     elif name == "vec_sum":
-        res(k, simlib.vecSum(prepared(("vs", a), lambda: [i for i in range(1, a + 1)])))
+        res(k, simlib.vecSum(prepared(("vs", a, b), lambda: seq_of([i for i in range(1, a + 1)], b))))
     elif name == "vec_iota":
         arr(k, simlib.vecIota())
     elif name == "vec_alloc":
@@ -189,7 +203,7 @@ def do_op(k, name, a, b, text):
     elif name == "arr_pat":
         arr(k, simlib.arrNewPat(a))
     elif name == "arr_sum":
-        res(k, simlib.arrSum(prepared(("as", a), lambda: [3 * i for i in range(1, a + 1)])))
+        res(k, simlib.arrSum(prepared(("as", a, b), lambda: seq_of([3 * i for i in range(1, a + 1)], b))))
     elif name == "char_grow":
         res(k, simlib.charGrow(text))
     elif name == "char_arr":
@@ -197,7 +211,7 @@ def do_op(k, name, a, b, text):
         def mk3():
             out_ = []
             for i in range(1, a + 1):
-                s = "w" * (i % (b + 1))
+                s = "w" * ((i - 1) % (b + 1))
                 out_.append([s + "", s.encode("ascii") + b"", bytearray(s.encode("ascii"))][(i + b) % 3])
             return out_
         lst = prepared(("ca", a, b), mk3)
@@ -211,6 +225,8 @@ def do_op(k, name, a, b, text):
     elif name == "char_ret_null":
         v = simlib.charRetNull(a)
         res(k, "NONE" if v is None else v)
+    elif name == "arr_fill_out":
+        arr(k, simlib.arrFillOut(a))
     elif name == "ref_item":
         h[a] = simlib.refItem()
         res(k)
